@@ -208,7 +208,45 @@ func c05Body(c *ev.Ctx) {
 		}
 	}
 	runCases(r, "compiled Poseidon R1CS over F_47: all pairs, complete search (output set must be exactly the reference)", cases, c05Eval)
-	runPairIsolation(c, c05Pairs())
+	// (e) fault, then reuse: definitions aborted inside the gadget (recovered by gnark / by the harness), then
+	// valid definitions in the same goroutine: the hash must not depend on what an aborted definition left behind
+	{
+		abort := func() {
+			defer func() { recover() }()
+			gad.Solved(&gad.PosAbort{}, &gad.PosAbort{A: 3}, ref.R)
+		}
+		var after []c05Case
+		for i := 0; i < 12; i++ {
+			after = append(after, c05Case{Kind: "engine-p1", P: R, A: FE[i%len(FE)].String(), Bump: -1}, c05Case{Kind: "engine-p2", P: R, A: FE[(i+1)%len(FE)].String(), B: FE[(2*i+3)%len(FE)].String(), Bump: -1})
+		}
+		bad := 0
+		for i := range after {
+			abort()
+			got, want, err := c05Eval(&after[i], nil, nil)
+			if err != nil {
+				c.HarnessError("%v", err)
+			}
+			if got != want && bad == 0 {
+				bad++
+				c.Violation("after-aborted-definition|"+after[i].Kind, fmt.Sprintf("after a definition that was aborted inside the Poseidon gadget, a valid %s in the same process: implementation %s, reference %s", after[i].Kind, got, want), after[i])
+			}
+		}
+		c.Set("valid_definitions_after_an_aborted_one", int64(len(after)))
+	}
+	runPairIsolation(c, append(c05Pairs(), pairScenario{Name: "aborted Poseidon2 definition then a valid one, next to a valid one", F: func(i int) string {
+		if i == 0 {
+			func() {
+				defer func() { recover() }()
+				gad.Solved(&gad.PosAbort{}, &gad.PosAbort{A: 3}, ref.R)
+			}()
+		}
+		cs := c05Case{Kind: "engine-p2", P: R, A: fmt.Sprint(5 + i), B: "9", Bump: -1}
+		got, want, err := c05Eval(&cs, nil, nil)
+		if err != nil {
+			return "error: " + err.Error()
+		}
+		return "got=" + got + " want=" + want
+	}}))
 	r.finish("C05")
 	c.Set("rule", "cases = (inputs, presented output); BN254: ordered pairs and singletons of the field alphabet vs iden3 poseidon.Hash; call sequences of <=3 gadget calls sharing variables; small primes: all pairs vs a textbook Poseidon (4 full, RP partial with S-box on element 0, 4 full); presented output = reference (accept) or reference+1 (reject); non-trivial = accept cases")
 	c.Assume("'all field elements' on BN254 is checked on the alphabet (boundaries, all byte lengths, powers of two in thorough, 2 seeded values), not proved as a polynomial identity")
